@@ -2,6 +2,7 @@ package verifrt
 
 import (
 	"fmt"
+	"os"
 	"strings"
 	"time"
 )
@@ -15,6 +16,12 @@ type ExploreOpts struct {
 	MaxSteps        int       // horizon per execution
 	MaxExecutions   int       // cap (0 = none)
 	Deadline        time.Time // cap (zero = none)
+	// Shards > 1: only the first-level branches (alternatives along the default execution) whose running number
+	// is congruent to Shard are explored, each with its whole subtree; shard 0 also accounts for the default execution.
+	Shard, Shards int
+	// SwitchBound > 0 bounds the number of points at which the running thread cannot continue (it blocked or
+	// ended) and a thread other than the default successor is chosen. 0 = unbounded (every order of successors).
+	SwitchBound int
 }
 
 // Scenario builds a fresh system for one execution.
@@ -89,6 +96,17 @@ func RunOnce(sc Scenario, choices []int, maxSteps int, expectSigs []string) (*Ex
 	return x, nil
 }
 
+// switchCost: 1 if alternative k picks a non-default successor at a point where nothing is preempted.
+func switchCost(p *Point, k int) int {
+	if k == 0 || p.Enabled[k].Thread < 0 || p.Enabled[k].Kind == OpSleep {
+		return 0
+	}
+	if p.RunningEnabled {
+		return 0 // that is a preemption
+	}
+	return 1
+}
+
 // cost of taking alternative k at point p: (preemptions, deviations)
 func choiceCost(p *Point, k int) (int, int) {
 	c := p.Enabled[k]
@@ -121,7 +139,7 @@ func choiceCost(p *Point, k int) (int, int) {
 	return 0, 0
 }
 
-func (e *explorer) explore(prefix []int, sigs []string, pre, dev int) {
+func (e *explorer) explore(prefix []int, sigs []string, pre, dev, sw int) {
 	if e.stats.Capped {
 		return
 	}
@@ -134,7 +152,10 @@ func (e *explorer) explore(prefix []int, sigs []string, pre, dev int) {
 		return
 	}
 	x, err := RunOnce(e.sc, prefix, e.opts.MaxSteps, sigs)
-	e.stats.Executions++
+	root := len(prefix) == 0 && e.opts.Shards > 1
+	if !root || e.opts.Shard == 0 {
+		e.stats.Executions++
+	}
 	if err != nil {
 		// the same choices led to a different enabled set: uncontrolled nondeterminism. Retry a few times.
 		for a := 0; a < 3 && err != nil; a++ {
@@ -142,24 +163,30 @@ func (e *explorer) explore(prefix []int, sigs []string, pre, dev int) {
 		}
 		if err != nil {
 			e.stats.Divergences++
+			if e.stats.Divergences <= 3 && os.Getenv("VERIF_DEBUG_DIVERGENCE") != "" {
+				fmt.Fprintf(os.Stderr, "DIVERGENCE %v\n  trace tail:\n   %s\n", err, strings.Join(around(FormatTrace(x.Res), err.Error()), "\n   "))
+			}
 			return
 		}
 	}
-	e.stats.Points += len(x.Res.Points)
-	if len(x.Res.Points) > e.stats.MaxPoints {
-		e.stats.MaxPoints = len(x.Res.Points)
+	if !root || e.opts.Shard == 0 {
+		e.stats.Points += len(x.Res.Points)
+		if len(x.Res.Points) > e.stats.MaxPoints {
+			e.stats.MaxPoints = len(x.Res.Points)
+		}
+		if x.Res.Horizon {
+			e.stats.Horizons++
+		}
+		e.stats.Outcomes[x.Outcome]++
+		e.report(x)
 	}
-	if x.Res.Horizon {
-		e.stats.Horizons++
-	}
-	e.stats.Outcomes[x.Outcome]++
-	e.report(x)
+	branch := 0
 	// costs accumulated along this execution
 	allSigs := make([]string, len(x.Res.Points))
 	for i := range x.Res.Points {
 		allSigs[i] = pointSig(&x.Res.Points[i])
 	}
-	p, d := pre, dev
+	p, d, w := pre, dev, sw
 	for i := len(prefix); i < len(x.Res.Points); i++ {
 		pt := &x.Res.Points[i]
 		for alt := 1; alt < len(pt.Enabled); alt++ {
@@ -167,8 +194,18 @@ func (e *explorer) explore(prefix []int, sigs []string, pre, dev int) {
 			if p+cp > e.opts.PreemptionBound || d+cd > e.opts.DeviationBound {
 				continue
 			}
+			cs := switchCost(pt, alt)
+			if e.opts.SwitchBound > 0 && w+cs > e.opts.SwitchBound {
+				continue
+			}
+			if root {
+				branch++
+				if (branch-1)%e.opts.Shards != e.opts.Shard {
+					continue
+				}
+			}
 			np := append(append([]int{}, x.Choices[:i]...), alt)
-			e.explore(np, allSigs[:i+1], p+cp, d+cd)
+			e.explore(np, allSigs[:i+1], p+cp, d+cd, w+cs)
 			if e.stats.Capped {
 				return
 			}
@@ -186,6 +223,28 @@ func Explore(opts ExploreOpts, sc Scenario, report func(*Execution)) *ExploreSta
 	}
 	st := &ExploreStats{Outcomes: map[string]int{}, PreemptionBound: opts.PreemptionBound, DeviationBound: opts.DeviationBound}
 	e := &explorer{opts: opts, sc: sc, report: report, stats: st}
-	e.explore(nil, nil, 0, 0)
+	e.explore(nil, nil, 0, 0, 0)
 	return st
+}
+
+func tail(l []string, n int) []string {
+	if len(l) > n {
+		return l[len(l)-n:]
+	}
+	return l
+}
+
+func around(l []string, msg string) []string {
+	var idx int
+	if _, err := fmt.Sscanf(msg, "replay divergence at point %d", &idx); err != nil {
+		return tail(l, 12)
+	}
+	lo, hi := idx-10, idx+3
+	if lo < 0 {
+		lo = 0
+	}
+	if hi > len(l) {
+		hi = len(l)
+	}
+	return l[lo:hi]
 }
